@@ -1,2 +1,163 @@
+"""C12, OS-RNG convenience functions: observed through strace (getrandom syscalls), then every fault point enumerated
+by re-running with strace's syscall fault injection. Appends an `os_rng` section to the evidence written by `mc C12`."""
+import json, os, re, subprocess, sys, shutil
+from verif_common import MC, TARGET, ROOT, env, known_findings
+import hashlib
+
+
+def build():
+    tdir = os.path.join(TARGET, "osrng")
+    r = subprocess.run(["cargo", "build", "--offline"], cwd=os.path.join(MC, "osrng_probe"), env=env({"CARGO_TARGET_DIR": tdir, "CARGO_INCREMENTAL": "0"}), stdout=subprocess.PIPE, stderr=subprocess.STDOUT, text=True)
+    if r.returncode != 0:
+        sys.stderr.write(r.stdout[-3000:])
+        return None
+    return os.path.join(tdir, "debug", "osrng_probe")
+
+
+GR = re.compile(r'getrandom\("((?:\\x[0-9a-f]{2})*)"(?:\.\.\.)?, (\d+), [^)]*\)\s+= (-?\d+)')
+
+
+def trace(exe, inject=None):
+    """returns list of events in order: ('gr', nbytes_requested, ret, hexbytes) | ('line', text)"""
+    cmd = ["strace", "-f", "-qq", "-xx", "-s", "64", "-e", "trace=getrandom,write"]
+    if inject:
+        cmd += ["-e", "inject=" + inject]
+    cmd += [exe]
+    r = subprocess.run(cmd, stdout=subprocess.PIPE, stderr=subprocess.PIPE, text=True, timeout=600)
+    ev = []
+    for line in r.stderr.splitlines():
+        m = GR.search(line)
+        if m:
+            hx = m.group(1).replace("\\x", "")
+            ev.append(("gr", int(m.group(2)), int(m.group(3)), hx))
+            continue
+        if "getrandom(" in line:  # failed / injected call: buffer printed as pointer
+            m2 = re.search(r'getrandom\([^,]*, (\d+), [^)]*\)\s+= (-?\d+)', line)
+            if m2:
+                ev.append(("gr", int(m2.group(1)), int(m2.group(2)), ""))
+            continue
+        m = re.search(r'write\(1, "((?:\\x[0-9a-f]{2})*)"', line)
+        if m:
+            txt = bytes.fromhex(m.group(1).replace("\\x", "")).decode(errors="replace").strip()
+            if txt:
+                ev.append(("line", txt))
+    return r.returncode, ev, r.stdout
+
+
+def ops_of(ev):
+    """group: for each START..OP pair, the getrandom calls in between"""
+    out, cur = [], None
+    for e in ev:
+        if e[0] == "line" and e[1].startswith("START "):
+            cur = {"name": e[1][6:], "gr": [], "result": None}
+        elif e[0] == "gr" and cur is not None:
+            cur["gr"].append(e)
+        elif e[0] == "line" and e[1].startswith("OP ") and cur is not None:
+            cur["result"] = e[1]
+            out.append(cur)
+            cur = None
+    return out
+
+
 def main(tier, evidence):
-    return 0
+    try:
+        ev = json.load(open(evidence))
+    except Exception:
+        return 2
+    sec = {"ran": False}
+    viol = []
+    exe = build()
+    if exe is None or shutil.which("strace") is None:
+        sec["not_run_reason"] = "probe build failed or strace missing"
+    else:
+        code, events, _ = trace(exe)
+        ops = ops_of(events)
+        if code != 0 or not ops or not any(e[0] == "gr" for e in events):
+            sec["not_run_reason"] = "strace/ptrace unavailable or probe failed (exit %s, %d ops seen)" % (code, len(ops))
+        else:
+            sec["ran"] = True
+            sec["operations"] = len(ops)
+            sec["baseline"] = [{"op": o["name"], "getrandom_calls": [(g[1], g[2]) for g in o["gr"]]} for o in ops[:6]]
+            digests = {}
+            for o in ops:
+                res = o["result"].split()
+                name = " ".join(res[1:3])
+                o["gr"] = [g for g in o["gr"] if g[1] != 0]  # zero-length calls are the getrandom crate's one-off availability probe
+                if len(o["gr"]) != 1 or o["gr"][0][1] != 32 or o["gr"][0][2] != 32:
+                    viol.append(("c12:os:request-pattern", "%s made getrandom calls %s instead of one fresh 32-byte call" % (name, [(g[1], g[2]) for g in o["gr"]])))
+                if res[3] != "ok":
+                    viol.append(("c12:os:spurious-error", "%s failed with a working OS RNG: %s" % (name, o["result"])))
+                    continue
+                if "verifies=false" in o["result"]:
+                    viol.append(("c12:os:invalid-signature", "%s returned a signature that does not verify" % name))
+                digests.setdefault(res[1] + " " + res[2].split("#")[0], []).append(res[4])
+                if "keygen" in res[2] and o["gr"] and o["gr"][0][3]:
+                    want = subprocess.run([exe, "refkeygen", res[1], o["gr"][0][3]], stdout=subprocess.PIPE, text=True).stdout.strip()
+                    if want != res[4]:
+                        viol.append(("c12:os:keygen-not-function-of-draw", "%s: keys are not KeyGen_internal of the 32 bytes read from the OS" % name))
+            for k, v in digests.items():
+                if len(set(v)) != len(v):
+                    viol.append(("c12:os:repeated-output", "%s returned identical outputs on two calls: randomness not fresh" % k))
+            # ---- fault enumeration: every getrandom call of the baseline, failed in turn
+            all_gr = [e for e in events if e[0] == "gr"]
+            owner = {}
+            idx = 0
+            cur = None
+            for e in events:
+                if e[0] == "gr":
+                    idx += 1
+                    if cur is not None and e[1] == 32:
+                        owner[idx] = cur
+                elif e[0] == "line" and e[1].startswith("START "):
+                    cur = e[1][6:]
+                elif e[0] == "line" and e[1].startswith("OP "):
+                    cur = None
+            points = sorted(owner)
+            if tier == "quick":
+                points = points[::3]
+            runs = 0
+            for i in points:
+                for kind, inj in (("EIO", "getrandom:error=EIO:when=%d" % i), ("short-read", "getrandom:retval=16:when=%d" % i)):
+                    if kind == "short-read" and tier == "quick" and i % 2:
+                        continue
+                    c2, ev2, _ = trace(exe, inj)
+                    runs += 1
+                    ops2 = ops_of(ev2)
+                    done = any(e[0] == "line" and e[1] == "DONE" for e in ev2)
+                    if c2 != 0 or not done:
+                        viol.append(("c12:os:crash-under-fault", "probe died (exit %s) when getrandom call %d (%s) was answered with %s" % (c2, i, owner[i], kind)))
+                        continue
+                    failed = [o["name"] for o in ops2 if " ERR " in o["result"]]
+                    if kind == "EIO" and failed != [owner[i]]:
+                        viol.append(("c12:os:fault-misreported", "getrandom call %d (owned by %s) failed with EIO, operations reporting an error: %s" % (i, owner[i], failed)))
+                    if kind == "short-read" and failed:
+                        viol.append(("c12:os:short-read", "short read on getrandom call %d made %s fail" % (i, failed)))
+            sec["fault_points"] = len(points)
+            sec["fault_runs"] = runs
+            sec["getrandom_calls_in_baseline"] = len(all_gr)
+    known = known_findings("C12")
+    code = 0
+    cov = ev["coverage"]
+    cov["os_rng"] = sec
+    if sec.get("ran"):
+        cov["evaluations"] += sec["operations"] + sec.get("fault_runs", 0)
+        cov["distinct_nontrivial"] += sec.get("fault_runs", 0)
+    ev["violations"] = (ev.get("violations") or 0) + len(viol)
+    json.dump(ev, open(evidence, "w"), indent=1)
+    seen = set()
+    for key, what in viol:
+        if any(k in key for k in known):
+            print("KNOWN-FINDING: property=C12 " + what)
+            continue
+        if key in seen:
+            continue
+        seen.add(key)
+        body = json.dumps({"property": "C12", "key": key, "summary": what, "case": {"engine": "os_rng"}}, indent=1)
+        path = os.path.join(ROOT, "replays", "C12-%s.json" % hashlib.sha256(body.encode()).hexdigest()[:16])
+        os.makedirs(os.path.dirname(path), exist_ok=True)
+        open(path, "w").write(body)
+        print("VIOLATION property=C12 replay=%s" % path)
+        print("  what: " + what)
+        code = 1
+    print("[C12 os_rng] ran=%s operations=%s fault_runs=%s violations=%d" % (sec.get("ran"), sec.get("operations"), sec.get("fault_runs"), len(viol)), flush=True)
+    return code
